@@ -5,6 +5,7 @@ package main
 
 import (
 	"fmt"
+	"os"
 	"runtime"
 	"sort"
 	"strings"
@@ -533,10 +534,10 @@ func (ex *Explorer) sampleInfeasible(in *Interp, c *Term) {
 	ex.nInf++
 	n := ex.nInf
 	ex.mu.Unlock()
-	if n%25 != 1 || n > 20000 {
+	if (n%25 != 1 && os.Getenv("VERIF_DUMP_ALL_INF") == "") || n > 20000 {
 		return
 	}
-	writeFile(fmt.Sprintf("%s/%s_inf%05d.smt2", ex.queryDir, sanitize(ex.job.Name), n), in.sv.Standalone(c))
+	writeFile(fmt.Sprintf("%s/%s_inf%05d.smt2", ex.queryDir, sanitize(ex.job.Name), n), "; answered unsat by "+in.sv.LastBackend+"\n"+in.sv.Standalone(c))
 }
 
 func (ex *Explorer) dumpQuery(in *Interp, neg *Term, label string) {
@@ -681,6 +682,14 @@ func (ex *Explorer) runOne(sv *Solver, prefix []dec) {
 			lbl := "panic"
 			r.violations = append(r.violations, r.mkViolation(in, "panic", lbl, r.panicPos, abort.msg, m))
 		}
+	}
+	if os.Getenv("VERIF_RUNSTATS") != "" {
+		h := map[string]int{}
+		for _, w := range r.whats {
+			h[w]++
+		}
+		fmt.Fprintf(os.Stderr, "whats: %v\n", h)
+		fmt.Fprintf(os.Stderr, "run: steps=%d terms=%d objs=%d decisions=%d nondets=%d script=%d\n", in.steps, in.tb.nextID, in.nextObj, len(r.decisions), len(r.nondets), len(sv.script))
 	}
 	ex.mu.Lock()
 	defer ex.mu.Unlock()
